@@ -405,7 +405,7 @@ func (fc *fnCtx) atLoopHeader(st *State, fr *frame, li *loopInfo, pred *ssa.Basi
 				fc.emit(st, fc.oblName(fr, fmt.Sprintf("%s.preserve.inv%d", lname, inv.Ord)), "loop.preserve", inv.Text, clauseLoc(inv), g, inv.Tags)
 			}
 		}
-		if li.spec.Decreases != nil {
+		if li.spec.Decreases != nil && strings.TrimSpace(li.spec.Decreases.Text) != "*" {
 			v0, ok := st.loopVar[li.header]
 			if ok {
 				g := fc.evalIntClause(sc, li.spec.Decreases, fc.oblName(fr, lname+".decreases"))
@@ -447,7 +447,9 @@ func (fc *fnCtx) atLoopHeader(st *State, fr *frame, li *loopInfo, pred *ssa.Basi
 	}
 	// vacuity guard: the invariants must be satisfiable together with the path so far
 	fc.emitQ(st, fc.oblName(fr, "smoke."+lname), "smoke", "loop invariants are satisfiable", "", "false", nil, true)
-	if li.spec.Decreases != nil {
+	if li.spec.Decreases != nil && strings.TrimSpace(li.spec.Decreases.Text) == "*" {
+		fc.e.warnings[fmt.Sprintf("termination of loop %d of %s is not claimed (decreases *)", li.ordinal, fr.key)] = true
+	} else if li.spec.Decreases != nil {
 		g := fc.evalIntClause(sc, li.spec.Decreases, "")
 		if g != "" {
 			n := fc.declare(st, "variant", "Int")
@@ -523,19 +525,38 @@ func (fc *fnCtx) havocLoopWrites(st *State, fr *frame, li *loopInfo) {
 		return li.body[ins.Block()]
 	}
 	whole := map[string]bool{}
+	freshOnly := map[string]bool{} // regions written in the loop only at objects allocated inside the loop
+	notFreshOnly := map[string]bool{}
 	type tgt struct{ region, obj string }
 	var precise []tgt
+	var freshInLoop func(v ssa.Value) bool
+	freshInLoop = func(v ssa.Value) bool {
+		switch x := v.(type) {
+		case *ssa.Alloc, *ssa.MakeSlice, *ssa.MakeMap, *ssa.MakeClosure, *ssa.MakeChan:
+			return inLoop(v)
+		case *ssa.Slice:
+			return freshInLoop(x.X)
+		}
+		return false
+	}
 	addWrite := func(region string, base ssa.Value, baseTerm func() string) {
 		if region == "" {
 			return
 		}
 		if base == nil || inLoop(base) {
+			if base != nil && freshInLoop(base) {
+				freshOnly[region] = true
+			} else {
+				notFreshOnly[region] = true
+			}
 			whole[region] = true
 			return
 		}
 		precise = append(precise, tgt{region, baseTerm()})
 	}
 	allocs := false
+	preLoopNow := st.now
+	wholeByCall := map[string]bool{}
 	for blk := range li.body {
 		for _, ins := range blk.Instrs {
 			switch ins := ins.(type) {
@@ -555,7 +576,12 @@ func (fc *fnCtx) havocLoopWrites(st *State, fr *frame, li *loopInfo) {
 				allocs = true
 			case *ssa.Call:
 				allocs = true
-				fc.callWrites(st, fr, ins, inLoop, whole, func(region, obj string) { precise = append(precise, tgt{region, obj}) })
+				cw := map[string]bool{}
+				fc.callWrites(st, fr, ins, inLoop, cw, func(region, obj string) { precise = append(precise, tgt{region, obj}) })
+				for r := range cw {
+					whole[r] = true
+					wholeByCall[r] = true
+				}
 			case *ssa.Send, *ssa.Go, *ssa.Defer:
 				fc.unsupported("%T inside a loop", ins)
 			}
@@ -566,9 +592,19 @@ func (fc *fnCtx) havocLoopWrites(st *State, fr *frame, li *loopInfo) {
 		st.pc = append(st.pc, fmt.Sprintf("(>= %s %s)", n, st.now))
 		st.now = n
 	}
-	for r := range whole {
-		fc.havocRegion(st, r)
+	loopEntryNow := st.now
+	if allocs {
+		// st.now was advanced above; objects that existed before the loop have atime below the old clock
 	}
+	for r := range whole {
+		prev := st.heap[r]
+		fc.havocRegion(st, r)
+		if freshOnly[r] && !notFreshOnly[r] && !wholeByCall[r] && prev != "" && strings.HasPrefix(fc.regionSort[r], "(Array U ") {
+			// only objects allocated inside the loop are written: everything older is untouched
+			st.pc = append(st.pc, fmt.Sprintf("(forall ((o U)) (! (=> (< (atime o) %s) (= (select %s o) (select %s o))) :pattern ((select %s o))))", preLoopNow, st.heap[r], prev, st.heap[r]))
+		}
+	}
+	_ = loopEntryNow
 	for _, t := range precise {
 		if whole[t.region] {
 			continue
@@ -1073,7 +1109,11 @@ func (fc *fnCtx) execFrom(st *State, fr *frame, b *ssa.BasicBlock, i int) {
 						sc.preHeap, sc.preNow = preHeap, preNow
 						name := fc.oblName(fr, fmt.Sprintf("hint@call%d.%d", fr.callOrd[ins], h.Ord))
 						if g := fc.evalBoolClause(sc, h, name); g != "" {
-							fc.emit(st, name, "hint", h.Text, clauseLoc(h), g, h.Tags)
+							if h.Kind == "assumeat" {
+								fc.e.warnings[fmt.Sprintf("assumption in %s after call %d: %s", fr.key, fr.callOrd[ins], h.Text)] = true
+							} else {
+								fc.emit(st, name, "hint", h.Text, clauseLoc(h), g, h.Tags)
+							}
 							st.pc = append(st.pc, g)
 						}
 					}
@@ -1447,6 +1487,9 @@ func (fc *fnCtx) loadFrom(st *State, a Val, t types.Type) Val {
 		case "elem":
 			_, rs := elemsRegion(ad.Sort)
 			r := fc.region(st, ad.Region, rs)
+			if ad.Sort == SInt && ad.Slice != "" {
+				st.pc = append(st.pc, eq(sel(sel(r, ad.Base), ad.Idx), app("sl_ielem", sel(r, ad.Base), app("sl_off", ad.Slice), ad.Rel)))
+			}
 			if ad.Sort == SU && ad.Slice != "" {
 				// the same element seen through the sequence view (creates the term specifications talk about)
 				st.pc = append(st.pc, eq(sel(sel(r, ad.Base), ad.Idx), app("sq_at", app("sq_of", sel(r, ad.Base), app("sl_off", ad.Slice), app("sl_len", ad.Slice)), ad.Rel)))
@@ -1454,6 +1497,9 @@ func (fc *fnCtx) loadFrom(st *State, a Val, t types.Type) Val {
 			return Val{T: sel(sel(r, ad.Base), ad.Idx), S: ad.Sort, GT: ad.GT}
 		case "global":
 			r := fc.region(st, ad.Region, ad.Sort.SMT())
+			if fc.e.contracts.GlobalNonNil[strings.TrimPrefix(ad.Region, "global.")] && ad.Sort == SU {
+				st.pc = append(st.pc, not(eq(r, "nil")))
+			}
 			return Val{T: r, S: ad.Sort, GT: ad.GT}
 		}
 	}
@@ -1709,11 +1755,17 @@ func (fc *fnCtx) convert(st *State, ins *ssa.Convert) {
 		fn := "conv." + sanitize(typeKey(from)) + ".." + sanitize(typeKey(to))
 		fc.declareFun(st, fn, "("+sf.SMT()+") "+stt.SMT())
 		d := fc.define(st, ins, app(fn, x.T))
-		fc.assumeTyped(st, d)
+		if !(sf == SStr && stt == SSlice) {
+			fc.assumeTyped(st, d)
+		}
 		if sf == SStr && stt == SSlice {
-			// []rune(s): a fresh slice
+			// []rune(s): a fresh slice with one element per rune
 			arr := fc.newObject(st, "arr", nil)
-			st.pc = append(st.pc, fmt.Sprintf("(and (= (sl_arr %s) %s) (= (sl_off %s) 0) (= (sl_cap %s) (sl_len %s)) (<= (sl_len %s) (str_len %s)))", d.T, arr.T, d.T, d.T, d.T, d.T, x.T))
+			st.pc = append(st.pc, fmt.Sprintf("(and (= (sl_arr %s) %s) (= (sl_off %s) 0) (= (sl_cap %s) (sl_len %s)) (<= 0 (sl_len %s)) (<= (sl_len %s) (str_len %s)) (<= (sl_len %s) MAXLEN) (= (sl_len %s) (str_runes %s)))", d.T, arr.T, d.T, d.T, d.T, d.T, d.T, x.T, d.T, d.T, x.T))
+		}
+		if sf == SSlice && stt == SStr {
+			// string(runes): one rune per element
+			st.pc = append(st.pc, fmt.Sprintf("(= (str_runes %s) (sl_len %s))", d.T, x.T))
 		}
 	}
 }
